@@ -483,6 +483,9 @@ def _generic_run(self, cspec, argvals):
             del ST.run_faults[slug]
 
         def _g():
+            # records and log messages produced while the generator body runs (after `run` itself has returned) belong to this run too
+            self.logger.info(f'marker {runid} gen')
+            self.save_to_run_info({'marker': runid, 'n': 'gen'})
             if at is not None and not value:
                 ST.fired.append(['runfault', slug, 'gen_raise'])
                 raise RunFault('injected: generator raises')
